@@ -187,7 +187,7 @@ def finish(ctx: Ctx, explanation: str, rule_text: str, digests: Dict[str, str]) 
             "exhaustive": True,
             "notes": ctx.notes,
         },
-        "assumptions": ctx.assumptions,
+        "assumptions": ctx.assumptions + _annotation_assumptions(),
         "wall_s": round(wall, 3),
         "violations": len(unlisted),
     }
@@ -231,3 +231,9 @@ def analysis_error(prop: str, tier: str, seed: int, msg: str, where: str = "") -
             "wall_s": 0.0, "violations": 0,
         }, f, indent=1)
     return 2
+
+
+def _annotation_assumptions() -> List[str]:
+    from . import icommon
+    return [f"{func} contains a loop outside the supported forms and was replaced by its return annotation `{ann}` (not verified)"
+            for func, ann in sorted(icommon.ANNOTATION_SUMMARIES)]
